@@ -33,7 +33,7 @@ ASSUMPTIONS = ["round 1 may normalise arbitrarily (or reject the interface: coun
 def streams(ctx):
     return [("wide", ctx.scale(600, 5000)), ("legal", ctx.scale(350, 3000)), ("announced", ctx.scale(400, 3000)),
             ("undocumented", ctx.scale(300, 2000)), ("similar", ctx.scale(150, 1500)),
-            ("code_defaults", ctx.scale(200, 1500))]
+            ("code_defaults", ctx.scale(200, 1500)), ("return_code_default", ctx.scale(150, 1500))]
 
 
 # container / union / dotted types whose defaults are written as code (```[3, 4]```), the form every non-literal default has
@@ -69,6 +69,15 @@ def gen_case(ctx, stream, idx):
             typ = r.choice(sorted(CODE_DEFAULTS))
             ir["returns"] = OrderedDict((("return_type", {"typ": typ, "doc": irgen.rand_doc(r, stop=False),
                                                          "default": r.choice(CODE_DEFAULTS[typ])}),))
+    elif stream == "return_code_default":
+        # what a function returns, recorded as the return entry's default (a code expression), under return types that do
+        # and do not mention `str`: the one entry whose default is read before its type is known
+        ir = irgen.rand_ir(r, nparams=r.randint(0, 3), type_kinds=("int", "float", "str", "bool"),
+                           default_kinds=("int", "float", "str", "bool"), doc_kinds=("plain",), all_defaults=True, with_return=False)
+        typ, dflt = r.choice((("Tuple[Model, str]", "(model, name)"), ("str", "name_of(model)"), ("Dict[str, float]", "dict(loss=loss)"),
+                              ("Optional[str]", "label or name"), ("Tuple[int, int]", "(epochs, epochs)"), ("int", "total"),
+                              ("List[str]", "names"), ("float", "loss")))
+        ir["returns"] = OrderedDict((("return_type", {"typ": typ, "doc": irgen.rand_doc(r, stop=False), "default": "```%s```" % dflt}),))
     elif stream == "similar":
         ir = irgen.similar_ir(r, with_return=r.random() < 0.4, all_defaults=r.random() < 0.5)
     elif stream == "announced":
@@ -244,7 +253,11 @@ def run_case(ctx, P, stream, idx):
             # through docstring prose and argparse strings they belong to the families recorded under C01 / C02
             # (default-cut-at-dot, loads-typed argparse defaults)
             continue
+        if stream == "return_code_default" and fmt not in ("json_schema", "docstring", "function"):
+            continue  # (the formats that carry a return entry's default)
         styles = STYLES if (legal and fmt != "json_schema") else ("rest",)
+        if stream == "return_code_default":
+            styles = ("rest",)
         for style in styles:
             kw = {} if fmt == "json_schema" else {"docstring_format": style}
             feats = "fmt=%s,style=%s" % (fmt, style)
